@@ -63,7 +63,10 @@ class Env:
             v = int(self.values[name])
         else:
             rnd = random.Random(f'{self.seed}/{name}')
-            v = rnd.randrange(lo, hi)
+            if rnd.random() < 0.4:
+                v = rnd.choice([lo, hi - 1, min(lo + 1, hi - 1), max(hi - 2, lo), (lo + hi) // 2, 0 if lo <= 0 < hi else lo])
+            else:
+                v = rnd.randrange(lo, hi)
             self.values[name] = v
         if not lo <= v < hi:
             raise RuntimeError(f'replay value {name}={v} outside [{lo},{hi})')
